@@ -23,7 +23,8 @@ ENTRY = dict(
                    "hits a wire that is still |0>; expand_observables puts qubit q's letter exactly on that final position. Closed under the "
                    "global context. The model is compared with cut_wires and _transform_cuts_to_moves on ~14000 generated cases per quick run. "
                    "The LAST sentence of the property (cutting the Moves and reconstructing with exact weights returns the original values) is "
-                   "NOT proved here: it is tested end-to-end on 26 (quick) / 82 (thorough) small circuits per run "
+                   "NOT proved here: it is tested end-to-end on 28 (quick) / 84 (thorough) small circuits per run (incl. 3+ partitions with the higher "
+                   "qubit's marker first, markers first/last on their wire with automatic labels; chk_e2e compares the values in Coq over Q, no model) "
                    "(cut_wires -> expand_observables -> partition_problem -> generate(inf) -> ExactSampler -> reconstruct, judged against an "
                    "independent simulation of the uncut circuit); its proof content is C01 (estimator) + C02 (the Move basis).",
         level_note=STD_NOTE + "No axioms. 'Same expectation value' is proved as equality of symbolic wire terms (modelling assumption M1: every "
